@@ -119,6 +119,33 @@ CLAIMED["C08"] = (
     "Trusted: TLC; items identified by address window over distinct u16 elements; std guard on every state.",
     "DESIGN §5 C08")
 
+CLAIMED["C06"] = (
+    "TLA+ spec (Split.tla: State enum machine of Split/RSplit/SplitTerminator/RSplitTerminator refines the piece "
+    "lists defined from Find/RFind) model-checked by TLC over the complete state graph; every distinct state "
+    "replayed (next, next_back, remainder; &str and char delimiters); recorded iterations validated by "
+    "Trace_Split.tla",
+    "Exhaustive within bounds: all strings of <=4 (thorough 5) characters over {a , n-tilde} x delimiters "
+    "{\",\" \"a\" \",,\" \"a,\" \"n-tilde\" \"\" \"aa\"}: the model's sequences equal str::split / rsplit / "
+    "split_terminator and the mirrored rsplit_terminator rule at every initial state, every step yields the "
+    "head of the remaining piece list and the remainder is the not-yet-split part; each of the ~12k states is "
+    "reproduced on the real iterators; 12k-190k recorded steps on random strings up to 40 bytes.",
+    "Trusted: TLC, MatcherRef (bound to the code by C04), harness rendering. Mixed front/back histories are "
+    "explored for one-character delimiters only.",
+    "DESIGN §5 C06")
+CLAIMED["C09"] = (
+    "TLA+ spec (RangeIter.tla: increment/decrement flag records, (MAX,MIN) parking, surrogate-gap hops refine the "
+    "abstract remaining interval) model-checked by TLC for every bound pair of an 8-bit unsigned and signed type "
+    "and char anchors; every pair replayed on all 12 integer types + char through into_iter!/for_each!; "
+    "recorded histories on u16/i16/char validated by Trace_RangeIter.tla over the true domains",
+    "Complete for u8 and i8: all 65 536 (start,end) pairs x {.., ..=} plus start.. (front item, back item, Rev "
+    "types, and complete forward/backward/reversed/alternating/for_each! sequences for ranges of <=12 values): "
+    "8.4M comparisons per quick run; the same behaviours projected into the MIN/0/MAX neighbourhoods of the 10 "
+    "wider integer types; char pairs within 6 of 0, 0xD7FF/0xE000, 0x10FFFF with histories up to 14 steps; "
+    "24k-270k recorded next/next_back/rev events on random u16/i16/char ranges.",
+    "Trusted: TLC; the projection for wider types (the stepping code is one macro body per type); std guard. "
+    "start.. is compared below T::MAX only.",
+    "DESIGN §5 C09")
+
 NOT_YET = {}
 
 def main():
